@@ -1,10 +1,18 @@
 #!/bin/bash
-# Builds the whole harness (all check binaries + the jj CLI from /repo) offline.
+# Builds the harness offline: the binaries of all registered checks (tools/ready.txt) and the
+# jj CLI (`jjv`) from /repo's current sources.
 set -e
 cd "$(dirname "$0")"
 export CARGO_NET_OFFLINE=true
 export CARGO_TARGET_DIR="${VERIF_TARGET_DIR:-$(pwd)/target}"
 cp /repo/Cargo.lock mc/Cargo.lock
 cp /repo/Cargo.lock mc/Cargo.lock.src
+props_bins=""
+cprops_bins="--bin jjv"
+for id in $(cat tools/ready.txt); do
+  b=$(echo "$id" | tr 'A-Z' 'a-z')
+  if [ -f "mc/cprops/src/bin/$b.rs" ]; then cprops_bins="$cprops_bins --bin $b"; else props_bins="$props_bins --bin $b"; fi
+done
 cd mc
-cargo build --offline --profile verif --workspace --bins
+cargo build --offline --profile verif -p props $props_bins
+cargo build --offline --profile verif -p cprops $cprops_bins
